@@ -96,7 +96,7 @@ func c05Diff(before, after map[string]int) []string {
 }
 
 var c05Endings = []string{"deletion", "release", "read-timeout", "heartbeat-failure", "report-context-not-found"}
-var c05Prefixes = []string{"plain", "rejected-est-after-alloc", "rejected-mod-halfway", "mod-then-end", "idle-then-end", "update-pdr-refresh", "update-pdr-new-teid", "remove-pdr", "remove-dl-rules", "two-dl-alloc", "datapath-write-failure", "two-sessions"}
+var c05Prefixes = []string{"plain", "rejected-est-after-alloc", "rejected-mod-halfway", "mod-then-end", "idle-then-end", "idle-keep-tunnel", "update-pdr-refresh", "update-pdr-new-teid", "remove-pdr", "remove-dl-rules", "two-dl-alloc", "datapath-write-failure", "two-sessions"}
 
 func TestVerif_C05(t *testing.T) {
 	res := vNewResult("C05")
@@ -285,6 +285,19 @@ func c05Scenario(res *vResult, rng *rand.Rand, up4 bool, ending, prefix string, 
 		f := vFARSpec{ID: orig.ID, Action: ActionBuffer | ActionNotify, Fwd: true, HasDst: true, DstIf: ie.DstInterfaceAccess, OHC: true, OHCTeid: 0, OHCIP: orig.OHCIP}
 		if m := c01Request(p, p.modify(vModSpec{Seq: seq, SEID: ups[0], UpFAR: []vFARSpec{f}}), seq); m == nil || vDecodeReply(m).Cause != ie.CauseRequestAccepted {
 			res.note("prefix idle-then-end: the Update FAR to BUFF|NOCP was not accepted")
+		}
+	}
+	if prefix == "idle-keep-tunnel" && ending != "report-context-not-found" {
+		// as above, but the Update FAR repeats the tunnel as it is (base station and TEID): the rule buffers and keeps
+		// its tunnel; the session then ends in that state
+		seq++
+		orig := mkEst(0, 1).FARs[1]
+		f := vFARSpec{ID: orig.ID, Action: ActionBuffer | ActionNotify, Fwd: true, HasDst: true, DstIf: ie.DstInterfaceAccess, OHC: true, OHCTeid: orig.OHCTeid, OHCIP: orig.OHCIP}
+		if rng.Intn(2) == 0 {
+			f.Action = ActionDrop
+		}
+		if m := c01Request(p, p.modify(vModSpec{Seq: seq, SEID: ups[0], UpFAR: []vFARSpec{f}}), seq); m == nil || vDecodeReply(m).Cause != ie.CauseRequestAccepted {
+			res.note("prefix idle-keep-tunnel: the Update FAR was not accepted")
 		}
 	}
 	if prefix == "remove-dl-rules" {
